@@ -397,3 +397,4 @@ pub proof fn lemma_unwrap_spec_on_b(b: Seq<u8>, el: crate::parser::Element)
         }
     }
 }
+
